@@ -368,7 +368,7 @@ type srcPlan struct {
 	Reuse       int // 0: fresh Reader; 1: the Reader handled another message before and was Reset
 	PrevKind    int // index into prevMessages
 	PrevSrc     int // 0 bytes.Reader, 1 plain (ReadByte hidden), 2 chunked io.ByteReader, 3 chunked plain, 4 bufio.Reader
-	Dtor        int // decompressor: 0 flate.NewReader (Close, no Reset(io.Reader)); 1 Read only; 2 Read+Close+Reset(io.Reader)
+	Dtor        int // decompressor: 0 flate.NewReader (Close, no Reset(io.Reader)); 1 Read only; 2 Read+Close+Reset(io.Reader); 3 reads through ReadByte only when offered
 }
 
 func genSrcPlan(t *rapid.T, label string) srcPlan {
@@ -381,7 +381,7 @@ func genSrcPlan(t *rapid.T, label string) srcPlan {
 		Reuse:       rapid.SampledFrom([]int{0, 0, 1}).Draw(t, label+".reuse"),
 		PrevKind:    rapid.IntRange(0, len(prevMessages)-1).Draw(t, label+".prevkind"),
 		PrevSrc:     rapid.IntRange(0, 4).Draw(t, label+".prevsrc"),
-		Dtor:        rapid.IntRange(0, 2).Draw(t, label+".dtor"),
+		Dtor:        rapid.IntRange(0, 3).Draw(t, label+".dtor"),
 	}
 }
 
@@ -410,8 +410,37 @@ type resettableDecompressor struct{ io.ReadCloser }
 
 func (d resettableDecompressor) Reset(r io.Reader) { d.ReadCloser.(flate.Resetter).Reset(r, nil) }
 
+// byteOnly pulls everything through ReadByte: wsflate.Reader offers ReadByte to the
+// decompressor whenever the source has it, so a decompressor may rely on it alone.
+type byteOnly struct{ br io.ByteReader }
+
+func (b byteOnly) ReadByte() (byte, error) { return b.br.ReadByte() }
+func (b byteOnly) Read(p []byte) (int, error) {
+	if len(p) == 0 {
+		return 0, nil
+	}
+	c, err := b.br.ReadByte()
+	if err != nil {
+		return 0, err
+	}
+	p[0] = c
+	return 1, nil
+}
+
+const (
+	sigReadByteEOF   = "C12/suffixedreader-readbyte-returns-spurious-zero-at-source-eof"
+	sigHelperNonData = "C12/compressframe-control-or-continuation-compressed-but-not-marked"
+)
+
 func dtorFor(kind int) func(io.Reader) wsflate.Decompressor {
 	switch kind {
+	case 3:
+		return func(r io.Reader) wsflate.Decompressor {
+			if br, ok := r.(io.ByteReader); ok {
+				return flate.NewReader(byteOnly{br})
+			}
+			return flate.NewReader(r)
+		}
 	case 1:
 		return func(r io.Reader) wsflate.Decompressor { return readOnlyDecompressor{flate.NewReader(r)} }
 	case 2:
@@ -474,6 +503,10 @@ func prevSource(kind int, b []byte) io.Reader {
 // decompress is oracle B's subject: wsflate.Reader over the compressed message
 // served as the plan says. It returns the recovered bytes and a problem.
 func decompress(compressed []byte, s srcPlan) ([]byte, string) {
+	if s.Dtor == 3 && hx.Known(sigReadByteEOF) {
+		hx.Exclude(sigReadByteEOF)
+		s.Dtor = 0
+	}
 	var src io.Reader
 	var ts *tx.Src
 	switch s.Std {
